@@ -505,7 +505,7 @@ def _extract_transform(
     except ValueError:
         # This can fail when any dimension is shorter than 2 elements
         # Figure out fallback resolution if possible and try again
-        if _pix2world is not None:
+        if gcp or _pix2world is not None:
             # axis labels are in pixel space: one pixel per step
             fallback_resolution = resxy_(1, 1)
         else:
